@@ -605,6 +605,15 @@ func (env *CEnv) call(e *CExpr) SV {
 			env.errf("atomconst(\"name\")")
 		}
 		return intSV(IntC(int64(atomByName(e.Args[0].Str))), types.Typ[types.Uint32])
+	case "firstrune", "lastrune":
+		// the rune utf8.DecodeRune / utf8.DecodeLastRune returns for the sequence (assumed dependency: the same
+		// uninterpreted function the executor uses for the call)
+		sq := env.resolveSeq(env.eval(e.Args[0]))
+		nm := "ext.utf8.DecodeRune"
+		if e.Str == "lastrune" {
+			nm = "ext.utf8.DecodeLastRune"
+		}
+		return intSV(App(nm, SInt, sq.Arr, sq.Off, sq.Len), types.Typ[types.Int32])
 	case "seqvalof":
 		// the contents of a byte sequence or string as one abstract value (equal contents, equal values)
 		sv := env.eval(e.Args[0])
